@@ -49,7 +49,7 @@ def resume(job):
     from campaigns.c07 import resume_inprocess
 
     try:
-        k, trace = resume_inprocess(job["driver"], job["text"], job["calc"], job["total"])
+        k, trace = resume_inprocess(job["driver"], job["text"], job["calc"], job["total"], job.get("changes"))
     except Exception as e:  # noqa: BLE001
         return {"error": _err(e)}
     return {"k": k, "trace": trace}
